@@ -185,7 +185,43 @@ def level_criterion_stream(ctx):
             ctx.oracle_failure({'stream': 'level-criterion', 'vals': vals, 'k': k}, fails, {'tag': 'K8'})
 
 
+def junction_stream(ctx):
+    """Small 2-D images with few distinct values: branches with three and more children (a saddle pixel touching several
+    structures).  After prune(min_delta) every leaf with a parent must stand at least min_delta above its parent's
+    height, and pruning again must change nothing.  Oracle only."""
+    from astrodendro import Dendrogram
+    rng = ctx.rng('c07-junction')
+    for it in range(500 if ctx.quick else 5000):
+        shape = rng.choice([(3, 3), (3, 4), (4, 4), (3, 5), (2, 5)])
+        top = rng.choice([5, 7, 9, 12])
+        vals = [rng.randint(1, top) for _ in range(shape[0] * shape[1])]
+        delta = rng.randint(1, 3)
+        arr = np.array(vals, dtype=float).reshape(shape)
+        info = {'stream': 'junctions', 'shape': list(shape), 'vals': vals, 'min_delta': delta}
+        try:
+            d = Dendrogram.compute(arr, min_value=0)
+            wide = max([len(s.children) for s in d] or [0])
+            d.prune(min_delta=delta)
+            bad = [int(s.idx) for s in d.leaves if s.parent is not None and not (s.height - s.parent.height >= delta)]
+            first = impl.impl_hierarchy(d, shape)
+            d.prune(min_delta=delta)
+            second = impl.impl_hierarchy(d, shape)
+        except Exception as e:
+            ctx.oracle_failure(info, ['raised %r' % (e,)], {})
+            continue
+        ctx.count('junction_cases')
+        ctx.case_done(None, ('junction', shape, tuple(vals), delta) if wide >= 3 else None)
+        fails = []
+        if bad:
+            fails.append('after prune(min_delta=%d) the leaves %s stand less than that above their parent' % (delta, bad))
+        if first != second:
+            fails.append('pruning again with the same min_delta changes the tree: %s -> %s' % (first, second))
+        if fails:
+            ctx.oracle_failure(info, fails, {})
+
+
 def explore(ctx):
+    junction_stream(ctx)
     level_criterion_stream(ctx)
     rng = ctx.rng('c07')
     terms, meta = [], []
